@@ -970,3 +970,720 @@ def _(m, callee, args):
 @model(r'^<String as From<&str>>::from$|^<String as From<&String>>::from$|^<str as ToString>::to_string$|^<String as ToString>::to_string$|^<&str as Into<String>>::into$|^<String as Clone>::clone$|^String::from$')
 def _(m, callee, args):
     return RStr(list(rstr(m, args[0]).cs))
+
+
+@model(r'^<Option<.*> as (std::ops::)?Try>::branch$')
+def _(m, callee, args):
+    if disc_is(m, args[0], 1):
+        return Enum(0, [args[0].fields[0]], 'Continue')
+    return Enum(1, [NONE()], 'Break')
+
+
+@model(r'^<Option<.*> as FromResidual<Option<Infallible>>>::from_residual$')
+def _(m, callee, args):
+    return NONE()
+
+
+@model(r' as Iterator>::collect::<BTreeMap<.*>>$')
+def _(m, callee, args):
+    t = BTree()
+    for kv in drain(m, args[0]):
+        k, v = kv
+        i, found = t.locate(m, k)
+        if found:
+            t.items[i] = (t.items[i][0], v)      # BTreeMap::from_iter keeps the last value for equal keys
+        else:
+            t.items.insert(i, (k, v))
+    return t
+
+
+@model(r'^<TypeId as PartialEq>::(eq|ne)$')
+def _(m, callee, args):
+    a, b = deref_all(m, args[0]), deref_all(m, args[1])
+    same = a == b
+    return same if callee.endswith('eq') else not same
+
+
+# ------------------------------------------------------------------ hash collections: lookup is order-free, ITERATION ORDER IS SYMBOLIC
+import itertools as _it
+
+_perm_counter = [0]
+
+
+def hash_order(m, items):
+    """iteration order of a hash collection: any permutation (decided by the solver as a case split)"""
+    n = len(items)
+    if n <= 1:
+        return list(items)
+    if n > 5:
+        raise Unsupported('hash collection with more than 5 entries is iterated')
+    perms = list(_it.permutations(range(n)))
+    _perm_counter[0] += 1
+    v = z3.Int(f'hash_order#{m.env.setdefault("hash_iter_count", 0)}')
+    m.env['hash_iter_count'] += 1
+    p = perms[m.ctx.pick(v, len(perms))]
+    m.env.setdefault('hash_iterations', []).append(n)
+    return [items[i] for i in p]
+
+
+def _hfind(m, hm, key):
+    k = deref_all(m, key)
+    for i, (ek, _) in enumerate(hm.items):
+        ek = deref_all(m, ek)
+        if isinstance(k, RStr) and isinstance(ek, RStr):
+            if str_eq(m, k, ek):
+                return i
+        elif not isinstance(k, RStr) and not isinstance(ek, RStr) and k == ek:
+            return i
+    return -1
+
+
+HMap.find = lambda self, m, key: _hfind(m, self, key)
+
+
+@model(r'^<Hash(Map|Set)<.*> as Default>::default$|^Hash(Map|Set)::<.*>::new$|^Hash(Map|Set)::<.*>::with_capacity$')
+def _(m, callee, args):
+    return HMap()
+
+
+@model(r'^HashSet::<.*>::insert$')
+def _(m, callee, args):
+    hs = deref_all(m, args[0])
+    if hs.find(m, args[1]) >= 0:
+        return False
+    hs.items.append((args[1], None))
+    return True
+
+
+@model(r'^HashSet::<.*>::contains::<')
+def _(m, callee, args):
+    return deref_all(m, args[0]).find(m, args[1]) >= 0
+
+
+@model(r'^HashMap::<.*>::entry$')
+def _(m, callee, args):
+    return ('hentry', deref_all(m, args[0]), args[1])
+
+
+@model(r'^std::collections::hash_map::Entry::<.*>::or_default$')
+def _(m, callee, args):
+    _, hm, key = args[0]
+    i = hm.find(m, key)
+    if i < 0:
+        # the value type is a collection in every use in ts-rs (BTreeSet / HashSet)
+        hm.items.append((key, HMap() if 'HashSet' in callee else BTree()))
+        i = len(hm.items) - 1
+    return ValRef(hm.items[i][1])
+
+
+@model(r'^HashMap::<.*>::contains_key::<')
+def _(m, callee, args):
+    return deref_all(m, args[0]).find(m, args[1]) >= 0
+
+
+@model(r'^HashMap::<.*>::get::<')
+def _(m, callee, args):
+    hm = deref_all(m, args[0])
+    i = hm.find(m, args[1])
+    return NONE() if i < 0 else some(ValRef(hm.items[i][1]))
+
+
+@model(r'^Hash(Map|Set)::<.*>::(iter|into_iter|keys|values)$|^<&?Hash(Map|Set)<.*> as IntoIterator>::into_iter$')
+def _(m, callee, args):
+    h = deref_all(m, args[0])
+    order = hash_order(m, h.items)
+    if 'HashSet' in callee.split(' as ')[0] or callee.startswith('HashSet'):
+        return PyIter('list', items=[k for k, _ in order], pos=0)
+    if callee.endswith('keys'):
+        return PyIter('list', items=[k for k, _ in order], pos=0)
+    if callee.endswith('values'):
+        return PyIter('list', items=[v for _, v in order], pos=0)
+    return PyIter('list', items=[(k, v) for k, v in order], pos=0)
+
+
+_into_iter_prev = into_iter
+
+
+def into_iter(m, v):      # noqa: F811
+    d = deref_all(m, v)
+    if isinstance(d, HMap):
+        order = hash_order(m, d.items)
+        if all(val is None for _, val in d.items):
+            return PyIter('list', items=[k for k, _ in order], pos=0)
+        return PyIter('list', items=[(k, val) for k, val in order], pos=0)
+    return _into_iter_prev(m, v)
+
+
+globals()['into_iter'] = into_iter
+
+
+@model(r' as Iterator>::collect::<HashMap<.*>>$')
+def _(m, callee, args):
+    h = HMap()
+    for k, v in drain(m, args[0]):
+        i = h.find(m, k)
+        if i >= 0:
+            h.items[i] = (h.items[i][0], v)
+        else:
+            h.items.append((k, v))
+    return h
+
+
+@model(r' as Iterator>::collect::<HashSet<.*>>$')
+def _(m, callee, args):
+    h = HMap()
+    for k in drain(m, args[0]):
+        if h.find(m, k) < 0:
+            h.items.append((k, None))
+    return h
+
+
+# ------------------------------------------------------------------ file system model, second generation (directories, errno)
+class FSModel:
+    """nodes: {absolute normalised path string: ['file', [chars]] | ['dir']}; '/' always exists"""
+
+    def __init__(self, cwd='/tmp'):
+        self.nodes = {'/': ['dir']}
+        self.cwd = cwd
+        self.log = []
+        self.mkdirs(cwd)
+
+    def resolve(self, m, p):
+        cs = deref_all(m, p)
+        cs = cs.cs if isinstance(cs, RStr) else cs
+        if any(is_sym(c) for c in cs):
+            raise Unsupported('symbolic path reaches the file system model')
+        s = ''.join(chr(c) for c in cs)
+        if not s.startswith('/'):
+            s = self.cwd.rstrip('/') + '/' + s
+        out = []
+        for part in s.split('/'):
+            if part in ('', '.'):
+                continue
+            if part == '..':
+                if out:
+                    out.pop()
+                continue
+            out.append(part)
+        return '/' + '/'.join(out)
+
+    @staticmethod
+    def parent(path):
+        return path.rsplit('/', 1)[0] or '/'
+
+    def mkdirs(self, path):
+        """create_dir_all: returns None or an errno name"""
+        cur = ''
+        for part in [x for x in path.split('/') if x]:
+            cur += '/' + part
+            n = self.nodes.get(cur)
+            if n is None:
+                self.nodes[cur] = ['dir']
+            elif n[0] != 'dir':
+                return 'ENOTDIR' if cur != path else 'EEXIST'
+        return None
+
+    def check_parent(self, path):
+        par = self.parent(path)
+        # walk the ancestors: a regular file on the way is ENOTDIR, a missing one ENOENT
+        cur = ''
+        for part in [x for x in par.split('/') if x]:
+            cur += '/' + part
+            n = self.nodes.get(cur)
+            if n is None:
+                return 'ENOENT'
+            if n[0] != 'dir':
+                return 'ENOTDIR'
+        return None
+
+    def snapshot(self):
+        return {k: (v[0], ''.join(chr(c) if isinstance(c, int) else '?' for c in v[1]) if v[0] == 'file' else None)
+                for k, v in sorted(self.nodes.items())}
+
+
+def _fs(m):
+    if not isinstance(m.env.get('fs'), FSModel):
+        raise Unsupported('file system model not installed')
+    return m.env['fs']
+
+
+def io_err(kind):
+    return ('io', kind)
+
+
+class File2:
+    def __init__(self, path):
+        self.path = path
+        self.cur = 0
+
+
+def _f2_create(m, callee, args):
+    fs = m.env.get('fs')
+    if not isinstance(fs, FSModel):
+        return None
+    assert m.env.get('lock_held', True), 'file touched without the lock'
+    p = fs.resolve(m, args[0])
+    e = fs.check_parent(p)
+    if e:
+        return ERR(io_err(e))
+    n = fs.nodes.get(p)
+    if n is not None and n[0] == 'dir':
+        return ERR(io_err('EISDIR'))
+    fs.nodes[p] = ['file', []]
+    fs.log.append(('create', p))
+    return OK(File2(p))
+
+
+def _f2_open(m, callee, args):
+    fs = m.env.get('fs')
+    if not isinstance(fs, FSModel):
+        return None
+    assert m.env.get('lock_held', True), 'file touched without the lock'
+    p = fs.resolve(m, args[1])
+    e = fs.check_parent(p)
+    if e:
+        return ERR(io_err(e))
+    n = fs.nodes.get(p)
+    if n is None:
+        return ERR(io_err('ENOENT'))
+    if n[0] == 'dir':
+        return ERR(io_err('EISDIR'))
+    fs.log.append(('open', p))
+    return OK(File2(p))
+
+
+def _wrap_fs(pat, new):
+    """FSModel-aware version first; falls back to the first-generation dict model when no FSModel is installed"""
+    rx = re.compile(pat)
+    old = None
+    for p_, f in MODELS:
+        if p_.pattern == pat:
+            old = f
+            break
+
+    def both(m, callee, args):
+        r = new(m, callee, args)
+        if r is None:
+            if old is None:
+                raise Unsupported('no file system model for ' + callee)
+            return old(m, callee, args)
+        return r
+    MODELS.insert(0, (rx, both))
+
+
+_wrap_fs(r'^File::create::<', _f2_create)
+_wrap_fs(r'^OpenOptions::open::<', _f2_open)
+
+
+def _f2(fn):
+    def w(m, callee, args):
+        f = deref_all(m, args[0])
+        if not isinstance(f, File2):
+            return None
+        return fn(m, f, args)
+    return w
+
+
+def _f2_write_all(m, f, args):
+    fs = _fs(m)
+    data = deref_all(m, args[1])
+    data = data.cs if isinstance(data, RStr) else data
+    cur = fs.nodes[f.path][1]
+    fs.nodes[f.path][1] = cur[:f.cur] + list(data) + cur[f.cur + len(data):]
+    f.cur += len(data)
+    fs.log.append(('write', f.path))
+    return OK(())
+
+
+def _f2_read_to_string(m, f, args):
+    fs = _fs(m)
+    r = args[1]
+    data = fs.nodes[f.path][1][f.cur:]
+    m.write_place(r.frame, r.place, RStr(rstr(m, r).cs + data))
+    f.cur += len(data)
+    return OK(len(data))
+
+
+_wrap_fs(r'^<File as std::io::Write>::write_all$', _f2(_f2_write_all))
+_wrap_fs(r'^File::sync_all$', _f2(lambda m, f, a: OK(())))
+_wrap_fs(r'^File::metadata$', _f2(lambda m, f, a: OK(('meta', len(_fs(m).nodes[f.path][1])))))
+_wrap_fs(r'^<File as std::io::Read>::read_to_string$', _f2(_f2_read_to_string))
+
+
+def _f2_seek(m, f, args):
+    f.cur = args[1].fields[0]
+    return OK(f.cur)
+
+
+_wrap_fs(r'^<File as Seek>::seek$', _f2(_f2_seek))
+
+
+@model(r'^create_dir_all::<|^std::fs::create_dir_all::<')
+def _(m, callee, args):
+    fs = _fs(m)
+    p = fs.resolve(m, args[0])
+    e = fs.mkdirs(p)
+    if e:
+        return ERR(io_err(e))
+    return OK(())
+
+
+@model(r'^<ExportError as From<std::io::Error>>::from$')
+def _(m, callee, args):
+    return Enum(1, [args[0]], 'Io')
+
+
+# ------------------------------------------------------------------ breadth: common std functions a small patch is likely to reach for
+@model(r'^<(Path|str|OsStr) as ToOwned>::to_owned$|^Path::to_path_buf$|^PathBuf::as_path$|^<PathBuf as From<.*>>::from$|^Path::as_os_str$|^PathBuf::into_os_string$|^<(Path|PathBuf) as AsRef<.*>>::as_ref$|^<PathBuf as Borrow<Path>>::borrow$|^String::as_mut_str$|^String::into_boxed_str$|^<str as AsRef<.*>>::as_ref$|^<String as AsRef<.*>>::as_ref$|^<String as Borrow<str>>::borrow$')
+def _(m, callee, args):
+    s = rstr(m, args[0])
+    if 'to_owned' in callee or 'to_path_buf' in callee or 'From' in callee or 'into_' in callee:
+        return RStr(list(s.cs))
+    return ValRef(s)
+
+
+@model(r'^PathBuf::new$')
+def _(m, callee, args):
+    return RStr([])
+
+
+@model(r'^PathBuf::push::<')
+def _(m, callee, args):
+    r = args[0]
+    s = rstr(m, r)
+    m.write_place(r.frame, r.place, RStr(models2.path_push(m, s.cs, rstr(m, args[1]).cs)))
+    return ()
+
+
+@model(r'^Path::is_absolute$|^Path::has_root$')
+def _(m, callee, args):
+    cs = rstr(m, args[0]).cs
+    return bool(cs) and models2.ceq(m, cs[0], 47)
+
+
+@model(r'^Path::is_relative$')
+def _(m, callee, args):
+    cs = rstr(m, args[0]).cs
+    return not (bool(cs) and models2.ceq(m, cs[0], 47))
+
+
+@model(r'^Path::starts_with::<')
+def _(m, callee, args):
+    a = models2.components(m, rstr(m, args[0]))
+    b = models2.components(m, rstr(m, args[1]))
+    if len(b) > len(a):
+        return False
+    for x, y in zip(a, b):
+        if x.disc != y.disc or (x.disc == 4 and not str_eq(m, x.fields[0].v, y.fields[0].v)):
+            return False
+    return True
+
+
+@model(r'^Path::extension$|^Path::file_stem$')
+def _(m, callee, args):
+    comps_ = models2.components(m, rstr(m, args[0]))
+    if not comps_ or comps_[-1].disc != 4:
+        return NONE()
+    name = comps_[-1].fields[0].v.cs
+    dots = [i for i, c in enumerate(name) if models2.ceq(m, c, 46)]
+    if not dots or dots[-1] == 0:
+        return some(S(name)) if callee.endswith('file_stem') else NONE()
+    i = dots[-1]
+    return some(S(name[:i])) if callee.endswith('file_stem') else some(S(name[i + 1:]))
+
+
+@model(r'str::<impl str>::trim$|str::<impl str>::trim_start$|str::<impl str>::trim_end$')
+def _(m, callee, args):
+    cs = list(rstr(m, args[0]).cs)
+    if not callee.endswith('trim_end'):
+        while cs and is_ws(m, cs[0]):
+            cs = cs[1:]
+    if not callee.endswith('trim_start'):
+        while cs and is_ws(m, cs[-1]):
+            cs = cs[:-1]
+    return S(cs)
+
+
+@model(r'str::<impl str>::find::<')
+def _(m, callee, args):
+    cs = rstr(m, args[0]).cs
+    kind, p = _pat_pred(m, args[1])
+    if kind == 'str':
+        i = find(m, cs, p)
+    else:
+        i = -1
+        for k, c in enumerate(cs):
+            if any(cmp_char_eq(m, c, q) for q in p):
+                i = k
+                break
+    if i < 0:
+        return NONE()
+    return some(_blen(m, cs[:i]))
+
+
+@model(r'str::<impl str>::rfind::<')
+def _(m, callee, args):
+    cs = rstr(m, args[0]).cs
+    kind, p = _pat_pred(m, args[1])
+    best = -1
+    if kind == 'str':
+        for k in range(len(cs) - len(p), -1, -1):
+            if match_at(m, cs, k, p):
+                best = k
+                break
+    else:
+        for k in range(len(cs) - 1, -1, -1):
+            if any(cmp_char_eq(m, cs[k], q) for q in p):
+                best = k
+                break
+    return NONE() if best < 0 else some(_blen(m, cs[:best]))
+
+
+@model(r'str::<impl str>::split::<char>$|str::<impl str>::split::<&\[char')
+def _(m, callee, args):
+    cs = rstr(m, args[0]).cs
+    kind, p = _pat_pred(m, args[1])
+    out, cur = [], []
+    for c in cs:
+        if any(cmp_char_eq(m, c, q) for q in p):
+            out.append(S(cur))
+            cur = []
+        else:
+            cur.append(c)
+    out.append(S(cur))
+    return PyIter('list', items=out, pos=0)
+
+
+@model(r'str::<impl str>::rsplit_once::<')
+def _(m, callee, args):
+    cs = rstr(m, args[0]).cs
+    kind, p = _pat_pred(m, args[1])
+    if kind != 'str':
+        p = None
+    for k in range(len(cs) - (len(p) if p else 1), -1, -1):
+        if (p and match_at(m, cs, k, p)) or (not p and any(cmp_char_eq(m, cs[k], q) for q in _pat_pred(m, args[1])[1])):
+            L = len(p) if p else 1
+            return some((S(cs[:k]), S(cs[k + L:])))
+    return NONE()
+
+
+@model(r'str::<impl str>::split_once::<char>$')
+def _(m, callee, args):
+    cs = rstr(m, args[0]).cs
+    kind, p = _pat_pred(m, args[1])
+    for k, c in enumerate(cs):
+        if any(cmp_char_eq(m, c, q) for q in p):
+            return some((S(cs[:k]), S(cs[k + 1:])))
+    return NONE()
+
+
+@model(r'^String::insert_str$')
+def _(m, callee, args):
+    from .models import cidx
+    r = args[0]
+    s = rstr(m, r)
+    i = cidx(m, s.cs, args[1])
+    m.write_place(r.frame, r.place, RStr(s.cs[:i] + rstr(m, args[2]).cs + s.cs[i:]))
+    return ()
+
+
+@model(r'^String::clear$')
+def _(m, callee, args):
+    r = args[0]
+    m.write_place(r.frame, r.place, RStr([]))
+    return ()
+
+
+@model(r'^String::truncate$')
+def _(m, callee, args):
+    from .models import cidx
+    r = args[0]
+    s = rstr(m, r)
+    m.write_place(r.frame, r.place, RStr(s.cs[:cidx(m, s.cs, args[1])]))
+    return ()
+
+
+@model(r'^String::pop$')
+def _(m, callee, args):
+    r = args[0]
+    s = rstr(m, r)
+    if not s.cs:
+        return NONE()
+    m.write_place(r.frame, r.place, RStr(s.cs[:-1]))
+    return some(s.cs[-1])
+
+
+@model(r'^<(String|str|&str) as (PartialOrd|Ord)(<.*>)?>::(lt|le|gt|ge|cmp)$')
+def _(m, callee, args):
+    a, b = rstr(m, args[0]).cs, rstr(m, args[1]).cs
+    op = callee.rsplit('::', 1)[1]
+    lt = str_lt(m, a, b)
+    if op == 'lt':
+        return lt
+    eq = (not lt) and str_eq(m, RStr(a), RStr(b))
+    if op == 'le':
+        return lt or eq
+    if op == 'gt':
+        return not lt and not eq
+    if op == 'ge':
+        return not lt
+    return Enum(-1 % (1 << 8) if lt else (0 if eq else 1), [], 'Ordering')
+
+
+@model(r'^Vec::<.*>::with_capacity$')
+def _(m, callee, args):
+    return RVec([])
+
+
+@model(r'^Vec::<.*>::insert$')
+def _(m, callee, args):
+    r = args[0]
+    v = m.read_place(r.frame, r.place)
+    i = args[1]
+    if i > len(v.items):
+        raise Panic('insertion index out of bounds')
+    m.write_place(r.frame, r.place, RVec(v.items[:i] + [args[2]] + v.items[i:]))
+    return ()
+
+
+@model(r'^Vec::<.*>::contains$|^core::slice::<impl \[.*\]>::contains$')
+def _(m, callee, args):
+    v = deref_all(m, args[0])
+    items = v.items if isinstance(v, RVec) else v
+    x = deref_all(m, args[1])
+    for it in items:
+        it = deref_all(m, it)
+        if isinstance(x, RStr) and isinstance(it, RStr):
+            if str_eq(m, x, it):
+                return True
+        elif it == x:
+            return True
+    return False
+
+
+@model(r'^core::slice::<impl \[.*\]>::sort$|^core::slice::<impl \[.*\]>::sort_unstable$')
+def _(m, callee, args):
+    r = args[0]
+    v = deref_all(m, r)
+    items = list(v.items if isinstance(v, RVec) else v)
+    out = []
+    for it in items:
+        k = 0
+        while k < len(out) and not str_lt(m, deref_all(m, it).cs, deref_all(m, out[k]).cs):
+            k += 1
+        out.insert(k, it)
+    if isinstance(v, RVec):
+        v.items[:] = out
+    else:
+        v[:] = out
+    return ()
+
+
+@model(r'^Vec::<.*>::dedup$')
+def _(m, callee, args):
+    v = deref_all(m, args[0])
+    out = []
+    for it in v.items:
+        if out and isinstance(deref_all(m, it), RStr) and str_eq(m, deref_all(m, it), deref_all(m, out[-1])):
+            continue
+        out.append(it)
+    v.items[:] = out
+    return ()
+
+
+@model(r'^BTreeMap::<.*>::insert$')
+def _(m, callee, args):
+    t = deref_all(m, args[0])
+    i, found = t.locate(m, args[1])
+    if found:
+        old = t.items[i][1]
+        t.items[i] = (t.items[i][0], args[2])
+        return some(old)
+    t.items.insert(i, (args[1], args[2]))
+    return NONE()
+
+
+@model(r'^BTree(Map|Set)::<.*>::new$')
+def _(m, callee, args):
+    return BTree()
+
+
+@model(r'^BTreeMap::<.*>::(iter|into_iter)$|^BTreeMap::<.*>::values$|^BTreeMap::<.*>::keys$')
+def _(m, callee, args):
+    t = deref_all(m, args[0])
+    if callee.endswith('values'):
+        return PyIter('list', items=[v for _, v in t.items], pos=0)
+    if callee.endswith('keys'):
+        return PyIter('list', items=[k for k, _ in t.items], pos=0)
+    return PyIter('list', items=[(k, v) for k, v in t.items], pos=0)
+
+
+@model(r'^BTreeSet::<.*>::contains::<')
+def _(m, callee, args):
+    return deref_all(m, args[0]).locate(m, args[1])[1]
+
+
+@model(r' as Iterator>::collect::<BTreeSet<.*>>$')
+def _(m, callee, args):
+    t = BTree()
+    for k in drain(m, args[0]):
+        i, found = t.locate(m, k)
+        if not found:
+            t.items.insert(i, (k, None))
+    return t
+
+
+@model(r'^HashMap::<.*>::remove::<')
+def _(m, callee, args):
+    hm = deref_all(m, args[0])
+    i = hm.find(m, args[1])
+    if i < 0:
+        return NONE()
+    return some(hm.items.pop(i)[1])
+
+
+@model(r'^drop::<|^std::mem::drop::<|^core::mem::drop::<')
+def _(m, callee, args):
+    return ()
+
+
+@model(r'^Path::exists$|^Path::is_file$|^Path::is_dir$|^Path::try_exists$')
+def _(m, callee, args):
+    fs = _fs(m)
+    n = fs.nodes.get(fs.resolve(m, args[0]))
+    if callee.endswith('is_file'):
+        return n is not None and n[0] == 'file'
+    if callee.endswith('is_dir'):
+        return n is not None and n[0] == 'dir'
+    if callee.endswith('try_exists'):
+        return OK(n is not None)
+    return n is not None
+
+
+@model(r'^(std::fs::)?write::<|^(std::fs::)?read_to_string::<|^(std::fs::)?remove_file::<')
+def _(m, callee, args):
+    fs = _fs(m)
+    p = fs.resolve(m, args[0])
+    if 'remove_file' in callee:
+        if p not in fs.nodes or fs.nodes[p][0] != 'file':
+            return ERR(io_err('ENOENT'))
+        del fs.nodes[p]
+        fs.log.append(('remove', p))
+        return OK(())
+    if 'read_to_string' in callee:
+        n = fs.nodes.get(p)
+        if n is None:
+            return ERR(io_err('ENOENT'))
+        if n[0] == 'dir':
+            return ERR(io_err('EISDIR'))
+        return OK(RStr(list(n[1])))
+    e = fs.check_parent(p)
+    if e:
+        return ERR(io_err(e))
+    if p in fs.nodes and fs.nodes[p][0] == 'dir':
+        return ERR(io_err('EISDIR'))
+    data = deref_all(m, args[1])
+    fs.nodes[p] = ['file', list(data.cs if isinstance(data, RStr) else data)]
+    fs.log.append(('create', p))
+    fs.log.append(('write', p))
+    return OK(())
